@@ -109,7 +109,7 @@ def mutate_field(rng: Random, frame: str) -> str | None:
     return join(p)
 
 
-def retime(lines: list[tuple[str, str]], start: _dt.datetime | None = None, max_gap: float = 900.0) -> list[tuple[str, str]]:
+def retime(lines: list[tuple[str, str]], start: _dt.datetime | None = None, max_gap: float = 1500.0) -> list[tuple[str, str]]:
     """Strictly increasing unique timestamps; original gaps kept where they are positive."""
     out: list[tuple[str, str]] = []
     prev_src: _dt.datetime | None = None
@@ -153,8 +153,10 @@ def build(rng: Random, *, max_len: int = 120, base: str | None = None, ops: tupl
     lines = src
     chosen = ops if ops is not None else tuple(
         op for op in ("delete", "duplicate", "reorder", "splice", "mutate") if rng.random() < 0.55
-    )
+    ) + (("zone-update",) if rng.random() < 0.35 else ())
     for op in chosen:
+        if op == "zone-update":
+            continue  # appended after the other operations (below)
         meta["ops"].append(op)
         if op == "delete":
             keep = rng.choice((0.5, 0.8, 0.95))
@@ -207,4 +209,41 @@ def build(rng: Random, *, max_len: int = 120, base: str | None = None, ops: tupl
             lines = out
             meta["mutated"] = n_mut
     lines = lines[: 2 * max_len]
+    if "zone-update" in chosen:
+        lines = lines + zone_update_tail(rng, lines, meta)
     return History(retime(lines), meta)
+
+
+ARRAY_ELEM = {"000A": 12, "2309": 6, "30C9": 6, "22C9": 12, "2249": 14, "0009": 6}
+
+
+def zone_update_tail(rng: Random, lines: list[tuple[str, str]], meta: dict[str, Any]) -> list[tuple[str, str]]:
+    """What a controller does all day: broadcast an array, later announce one changed element.
+
+    Appends (minutes apart): a filler packet, an array ' I' seen earlier in the history, the filler
+    again, a single-element ' I' of the same code and source cut from that array, the filler once
+    more.  The repeated filler supersedes its earlier copies, so in a snapshot the array and the
+    single-element packet end up next to each other although they were sent minutes apart.
+    """
+    arrays = []
+    for dtm, f in lines:
+        p = split(f)
+        if p and p["verb"] == " I" and p["code"] in ARRAY_ELEM and p["addrs"][:9] == p["addrs"][20:29]:
+            n = ARRAY_ELEM[p["code"]]
+            if len(p["payload"]) >= 2 * n and len(p["payload"]) % n == 0:
+                arrays.append((dtm, f, p, n))
+    fillers = [x for x in lines if (q := split(x[1])) and q["code"] in ("1F09", "3150", "1060", "3B00", "0008")]
+    if not arrays or not fillers:
+        return []
+    dtm, f, p, n = rng.choice(arrays)
+    filler = rng.choice(fillers)
+    k = rng.randrange(len(p["payload"]) // n)
+    single = dict(p, payload=p["payload"][k * n : (k + 1) * n])
+    base = _dt.datetime.fromisoformat(lines[-1][0]) if lines else _dt.datetime(2024, 3, 1)
+    out = []
+    t = base
+    for gap, frame in ((120, filler[1]), (0.06, f), (120, filler[1]), (rng.choice((30, 454, 1200)), join(single)), (147, filler[1])):
+        t = t + _dt.timedelta(seconds=gap)
+        out.append((t.isoformat(timespec="microseconds"), frame))
+    meta["ops"].append("zone-update:" + p["code"])
+    return out
